@@ -47,6 +47,8 @@ type tracedRenderer struct {
 	z  *RecRaster
 	w  *Writer
 	n  int
+	// trim: forget old rasteriser calls (long runs); off when the whole log is needed afterwards
+	trim bool
 }
 
 // viaRasterLogger makes the next traced Renderers talk to their recording rasteriser through
@@ -89,7 +91,7 @@ func (t *tracedRenderer) doHint(c Call, hint *arcHint) {
 	}
 	t.w.Emit(ev)
 	t.n++
-	if len(t.z.Calls) > 4096 {
+	if t.trim && len(t.z.Calls) > 4096 {
 		t.z.Calls = t.z.Calls[:0]
 	}
 }
@@ -265,8 +267,16 @@ func driveRend(args []string) error {
 						b[0] = a[0] // the same palette again: nothing of A's register writes may survive
 					}
 				} else {
-					b = genProgram(rng, &progOpts{maxPaths: 3, maxRun: 4, lattice: true})
-					b[0] = resetCall(cfg.vb, defaultPal())
+					b = genProgram(rng, &progOpts{maxPaths: 3, maxRun: 4, lattice: true, arcs: i%4 == 1})
+					vbB := cfg.vb
+					if i%4 == 1 {
+						// the same target, a viewBox of another size (no SetRasterizer in between): everything
+						// derived from the old viewBox must be recomputed by Reset
+						for k := range vbB {
+							vbB[k] /= 2
+						}
+					}
+					b[0] = resetCall(vbB, defaultPal())
 				}
 				runProg(t, b)
 				stats["reuse.programs"]++
@@ -372,6 +382,41 @@ func genVMProgram(r *rand.Rand, vb [4]float32, height int) []Call {
 		}
 		prog = append(prog, sp, mkCall("AbsLineTo", 5, 2), mkCall("RelLineTo", -1, 6), mkCall("ClosePathEndPath"))
 	}
+	if r.Intn(3) == 0 {
+		// the same colour register painted repeatedly while its meaning changes underneath: a valid gradient, then
+		// (one register write later) invalid stops, several paths in a row without further writes, then valid again
+		tri := func() []Call {
+			return []Call{mkCall("StartPath", -3, 2), mkCall("AbsLineTo", 5, 2), mkCall("RelLineTo", -1, 6), mkCall("ClosePathEndPath")}
+		}
+		b := []int{10, 58, 62}[r.Intn(3)]
+		prog = append(prog, sel("SetCSel", b), sel("SetNSel", b))
+		for s := 0; s < 3; s++ {
+			cc := mkCall("SetCReg")
+			cc.C, cc.Incr = []int{0, 40 * s, 10, 20, 255}, 1
+			nn := mkCall("SetNReg", float32(s)/2)
+			nn.Incr = 1
+			prog = append(prog, cc, nn)
+		}
+		g := mkCall("SetCReg")
+		g.C = []int{0, 3, b | 1<<6, 0x80 | b, 0}
+		prog = append(prog, sel("SetCSel", 5), g)
+		prog = append(prog, tri()...)
+		bad := mkCall("SetNReg", float32(-0.25)) // first offset outside [0,1]
+		switch r.Intn(3) {
+		case 1:
+			bad = mkCall("SetNReg", 1) // not strictly increasing any more
+		case 2:
+			bad = mkCall("SetNReg", float32(math.NaN()))
+		}
+		prog = append(prog, sel("SetNSel", b), bad)
+		prog = append(prog, tri()...)
+		prog = append(prog, tri()...)
+		prog = append(prog, tri()...)
+		prog = append(prog, sel("SetNSel", b), mkCall("SetNReg", 0))
+		prog = append(prog, tri()...)
+		prog = append(prog, mkCall("SetLOD", float32(height)+16, float32(math.Inf(1)))) // the last LOD of the graphic excludes the height
+		prog = append(prog, tri()...)
+	}
 	return prog
 }
 
@@ -421,6 +466,11 @@ func driveEllipses(sh *Shards, n int, stats map[string]int) {
 		cfg := cfgs[ci]
 		phi := ratAngles[rng.Intn(20)]
 		th1, th2 := ratAngles[rng.Intn(20)], ratAngles[rng.Intn(20)]
+		if count%4 == 3 {
+			// exactly half a turn with radii that exactly span the end points
+			k := rng.Intn(20)
+			th1, th2 = ratAngles[k], ratAngles[(k+10)%20]
+		}
 		if th1 == th2 {
 			continue
 		}
